@@ -2,8 +2,6 @@
 Key = '<function def path>|<op>' (all sites of that op in that function); value = the invariant."""
 
 SAFE_ARITH = {
-    "<data_type::intervals::Intervals<i64> as data_type::intervals::Values<i64>>::values_len|overflow:Neg": "operand is `self.capacity as i64` (a small positive container capacity, default 128): -capacity cannot overflow",
-    "<data_type::intervals::Intervals<i64> as data_type::intervals::Values<i64>>::values_len|overflow:Sub": "both operands were clamped to [-capacity, capacity] on the two previous lines",
     "data_type::function::extract_microsecond::{closure}|overflow:Mul": "operand is chrono second() in [0, 59] times the constant 1_000_000",
     "data_type::function::extract_microsecond::{closure}|overflow:Add": "second()*1e6 <= 59e6 plus nanosecond()/1000 < 2e6",
     "data_type::function::extract_microsecond::{closure}|divzero": "divisor is the literal 1_000",
